@@ -6,7 +6,7 @@ import ast
 from hypothesis import strategies as st
 
 from .. import gen
-from ..cells import BG_NAME, FG_NAME, STYLES, build, cells, cells_of_desc, show
+from ..cells import BG_NAME, FG_NAME, STYLES, build, build_any, cells, cells_of_desc, show
 from ..common import Res, call, exc_str, hyp_campaign
 
 PROP = "C19"
@@ -177,7 +177,9 @@ def run_case(case):
     bspec = derive(case)
     if "a_desc" in bspec:
         a_desc = bspec["a_desc"]
-    a = build(a_desc, "chunks")
+    a = build_any(a_desc, case.get("a_build", "chunks"), case.get("a_obs", 0))
+    if case.get("a_obs") or case.get("b_obs") or case.get("a_build", "chunks") != "chunks" or case.get("b_build", "chunks") != "chunks":
+        res.label("operand_with_history")
     res.label("how_" + case["how"])
     if "termstr_of_a" in bspec:
         b, bc = str(a), None
@@ -186,7 +188,7 @@ def run_case(case):
         b, bc = bspec["str"], [(ch, None, None, ()) for ch in bspec["str"]]
         res.label("str_operand")
     else:
-        b, bc = build(bspec["desc"], "chunks"), cells_of_desc(bspec["desc"])
+        b, bc = build_any(bspec["desc"], case.get("b_build", "chunks"), case.get("b_obs", 0)), cells_of_desc(bspec["desc"])
     ac = cells_of_desc(a_desc)
     cells_differ = bc is not None and bc != ac and not isinstance(b, str)
     if bc is not None and not isinstance(b, str):
@@ -201,7 +203,7 @@ def run_case(case):
 
 
 def strategy():
-    d = gen.desc(alphabet="ab é\n", max_runs=4, max_len=4)
+    d = gen.desc_sized(alphabet="ab é\n", max_runs=4, max_len=4, big_runs=30, big_len=80, huge=False)
     pair = st.fixed_dictionaries(
         {
             "a": d,
@@ -210,9 +212,11 @@ def strategy():
             "extra_atts": gen.atts(),
             "b": d,
             "b_str": gen.text("ab é", 0, 4),
+            "a_build": gen.BUILDS, "a_obs": gen.OBS, "b_build": gen.BUILDS, "b_obs": gen.OBS,
         }
     )
-    rtext = st.text(alphabet="ab'\"\\\n\té中 x", min_size=0, max_size=5)
+    rtext = st.one_of(st.text(alphabet="ab'\"\\\n\té中 x", min_size=0, max_size=5), st.text(alphabet="ab'\"\\\n\té中 x", min_size=0, max_size=5),
+                      st.text(alphabet=" \t\n\xa0", min_size=0, max_size=40), st.text(alphabet="ab' \\\n", min_size=12, max_size=120))
     rdesc = st.lists(st.tuples(rtext, gen.atts()).map(list), min_size=1, max_size=4)
     rep = st.fixed_dictionaries({"kind": st.just("repr"), "desc": rdesc})
     return st.one_of(pair, pair, rep)
@@ -229,7 +233,7 @@ def campaign(col, tier, seed, shard, nshards):
             if unknown:
                 col.add_violation(case, unknown)
         col.exhaustive["repr_over_all_attribute_sets"] = True
-    n = 8000 if tier == "quick" else 640000
+    n = 5000 if tier == "quick" else 640000
     hyp_campaign(col, strategy(), run_case, max(n // nshards, 100), seed * 100 + shard)
     if tier == "thorough":
         import sys as _sys
